@@ -250,6 +250,8 @@ Definition defined_q (e : expr) (t : table) : bool := defined_on e t.
        removed, new key without row-id suffix / with the primary-key value as row key), or the
        one-pass UPDATE path skipped index maintenance
     3  the residual filter dropped a conjunct that mentions the index column
+    4  a live row that holds the value is not in the index because another column of the
+       (composite) index is NULL: CREATE INDEX back-fill skips such rows, INSERT indexes them
     0  otherwise *)
 Fixpoint nodupz (l : list Z) : bool :=
   match l with [] => true | x :: l' => negb (existsb (Z.eqb x) l') && nodupz l' end.
@@ -261,6 +263,10 @@ Definition q_class (a : astate) (e : expr) : Z :=
           let es := ents (d_p (a_d a)) in
           let got := flat_map (fun k => match find_ent k es with Some x => [x] | None => [] end) rids in
           if existsb e_del got then 1
+          else if (match c with S c' => true | O => false end) &&
+                  existsb (fun x => live x && value_eqb (col_val c (e_row x)) v &&
+                                    negb (existsb (Z.eqb (e_id x)) rids) &&
+                                    negb (all_nn (slot_cols (c - 1)) (e_row x))) es then 4
           else if negb (forallb (fun x => value_eqb (col_val c (e_row x)) v) got) ||
                   negb (forallb (fun x => negb (live x && value_eqb (col_val c (e_row x)) v) ||
                                           existsb (Z.eqb (e_id x)) rids) es) ||
